@@ -50,6 +50,7 @@ fn table() -> Vec<Entry> {
         entry!("C14", c14, "exploration"),
         entry!("C15", c15, "exploration"),
         entry!("C16", c16, "exploration"),
+        entry!("C17", c17, "exploration"),
         entry!("C18", c18, "exploration"),
         entry!("C20", c20, "exploration"),
     ]
